@@ -98,6 +98,22 @@ def run():
         results.append(dict(name=f'{fn}: has a path that can return Ok (non-vacuity)', result='structural', ok=len(oks) > 0, prop='C08'))
         if oks:
             results.append(check(f'{fn}: every path that can return Ok requires sender = current admin, for every state', dom + [z3.Or(*[z3.And(*p.cond) for p in oks]), SND != ADMIN], 'C08'))
+    # ---- forced recovery: prefix of `recover` up to the configuration load (the loops after it are outside engine M) ----
+    try:
+        f = stk.get('recover')
+        eng = Engine([stk, mw], summ.BASE, maxpaths=2000)
+        eng.cut_at = r"Item::<'_, state::Config>::load$|Item::<.*Config>::load$"
+        args = [Obj(n) for n in ['deps', 'env', 'info', 'selected', 'receiver', 'page']]
+        paths = eng.relation(f, args)
+        cuts = [p for p in paths if p.outcome[0] == 'cut']
+        info['recover(prefix)'] = dict(paths=len(paths), cut=len(cuts))
+        SEL_D = Obj('selected').disc()
+        results.append(dict(name='recover: the guard prefix reaches the configuration load (non-vacuity)', result='structural', ok=len(cuts) > 0, prop='C08'))
+        if cuts:
+            results.append(check('recover: with selected_packets = Some(..) the handler continues past its guard only for the current admin, for every state', dom + [z3.Or(SEL_D == 0, SEL_D == 1), z3.Or(*[z3.And(*p.cond) for p in cuts]), SEL_D == 1, SND != ADMIN], 'C08'))
+            results.append(check('recover: without a selection anyone passes the guard (witness)', dom + [z3.Or(*[z3.And(*p.cond) for p in cuts]), SEL_D == 0, SND != ADMIN], 'C08', expect_unsat=False))
+    except (mirx.Unsupported, AssertionError) as e:
+        results.append(dict(name='recover: MIR executor reaches the guard prefix', result='inconclusive: ' + str(e), ok=False, inconclusive=True, prop='C08'))
     # ---- circuit breaker ----------------------------------------------------------------------
     try:
         oks, _ = relation('circuit_breaker')
